@@ -95,7 +95,7 @@ fn dispatch(case: &str, ctx: &mut Ctx, one: Option<&str>, rng: &mut Rng, budget:
         "rcl" => cases_rcl::run(case, ctx, one, rng, budget),
         "vfunc" => cases_vfunc::run(case, ctx, one, rng, budget),
         "shard_edge" => cases_shard::run(case, ctx, one, rng, budget),
-        "select_all" | "select_big" => cases_select::run(case, ctx, one, rng, budget),
+        "select_all" | "select_big" | "select_inv" => cases_select::run(case, ctx, one, rng, budget),
         "vfilter" => cases_vfilter::run(case, ctx, one, rng, budget),
         "lenders" | "lenders_take" | "lenders_selfcons" => cases_lenders::run(case, ctx, one, rng, budget),
         "rank9" | "rank_all" => cases_rank::run(case, ctx, one, rng, budget),
